@@ -2,6 +2,7 @@
 PROP = dict(
         module='kernel', pkg='mm/vmm', pkgname='vmm', harness=['vmm/c07_test.go'],
         n=dict(quick=400, thorough=20000),
+    anchors='C07.json', expr_imports=['Firefly.Gen.C07'],
         nontrivial=r'\| 1 ',
         rule='one evaluation = one EarlyReserveRegion / MapRegion / IdentityMapRegion call on the real code, '
              'replayed through the Lean model; distinct = by hash of (op, observation); non-trivial = the call succeeded',
